@@ -78,7 +78,7 @@ class _Sess:
         return ''
 
 
-def _upgrade_scenario(fl, n0, n1, n2, n3, n4, pending, late, outcome, two, c0, c1, c2):
+def _upgrade_scenario(fl, n0, n1, n2, n3, n4, pending, late, outcome, two, c0, c1, c2, bp=False):
     sut = mk(fl, async_handlers=False)
     try:
         sut.open('polling')
@@ -127,6 +127,9 @@ def _upgrade_scenario(fl, n0, n1, n2, n3, n4, pending, late, outcome, two, c0, c
         if outcome == 3:
             pass
         elif outcome == 0:
+            # ``bp``: back-pressure on the new WebSocket - the server's writes do not complete until the client reads again,
+            # which it does only after the application has made its next sends
+            u.peer.paused = bool(bp)
             u.peer.send('5')
         elif outcome == 1:
             u.peer.send('4nope')
@@ -134,6 +137,9 @@ def _upgrade_scenario(fl, n0, n1, n2, n3, n4, pending, late, outcome, two, c0, c
             u.peer.close()
         sut.settle()
         both(n4)
+        if outcome == 0 and bp:
+            u.peer.paused = False
+            sut.settle()
         # ---- collect what the client saw
         for tag, g, _, _ in polls:
             if not g.done and outcome == 3:
@@ -193,14 +199,14 @@ def _upgrade_scenario(fl, n0, n1, n2, n3, n4, pending, late, outcome, two, c0, c
 
 @cond(quick=dict(N1=20, timeout=170, parts=dict(FL=[0, 1], OUT=[0, 1, 2, 3])), thorough=dict(N1=24, timeout=1200, parts=dict(FL=[0, 1], OUT=[0, 1, 2, 3], TWO=[0, 1])))
 def across_upgrade(fl: int, n0: int, n1: int, n2: int, n3: int, n4: int, pending: bool, late: bool, outcome: int,
-                   two: bool, c0: int, c1: int) -> str:
+                   two: bool, c0: int, c1: int, bp: bool) -> str:
     """
     pre: fl == P.FL and outcome == P.OUT and 0 <= n0 <= 1 and 0 <= n1 <= P.N1 and 0 <= n2 <= 1 and 0 <= n3 <= 1 and 0 <= n4 <= 1
     pre: 0 <= c0 <= 1 and 0 <= c1 <= 1 and (n1 <= 2 or n1 >= 16) and (n1 <= 2 or (c0 == 0 and c1 == 0 and not two))
-    pre: not hasattr(P, 'TWO') or two == bool(P.TWO)
+    pre: (not hasattr(P, 'TWO') or two == bool(P.TWO)) and (not bp or (outcome == 0 and n1 <= 2))
     post: _ == ''
     """
-    return verdict(untraced(_upgrade_scenario, fl, n0, n1, n2, n3, n4, pending, late, outcome, two, c0, c1, 0))
+    return verdict(untraced(_upgrade_scenario, fl, n0, n1, n2, n3, n4, pending, late, outcome, two, c0, c1, 0, bp))
 
 
 def _single_transport(fl, ws, n_a, n_b, n_c, overlap, small=False):
